@@ -448,7 +448,7 @@ func c02Typed() []*Prog {
 func C02() int {
 	r := findings.New("C02")
 	defer drive.Cleanup()
-	deadline := r.Deadline(6*time.Minute, 30*time.Minute)
+	deadline := r.Deadline(10*time.Minute, 30*time.Minute)
 	type item struct {
 		name string
 		prog *Prog
